@@ -3,3 +3,5 @@ import WindVerif.Props.C06
 import WindVerif.Props.C07
 import WindVerif.Props.C08
 import WindVerif.Props.C09
+import WindVerif.Props.C10
+import WindVerif.Props.C16
